@@ -59,13 +59,13 @@ func (a *verifAssets) FindByName(name string) (flows.Flow, error) {
 	}
 	return nil, errors.New("no such flow")
 }
-func (a *verifAssets) Flows() flows.FlowAssets           { return a }
-func (a *verifAssets) Channels() *flows.ChannelAssets    { return a.channels }
-func (a *verifAssets) Fields() *flows.FieldAssets        { return a.fields }
-func (a *verifAssets) Groups() *flows.GroupAssets        { return a.groups }
-func (a *verifAssets) Globals() *flows.GlobalAssets      { return a.globals }
-func (a *verifAssets) Locations() *flows.LocationAssets  { return a.locations }
-func (a *verifAssets) ResolveField(key string) assets.Field { return nil }
+func (a *verifAssets) Flows() flows.FlowAssets               { return a }
+func (a *verifAssets) Channels() *flows.ChannelAssets        { return a.channels }
+func (a *verifAssets) Fields() *flows.FieldAssets            { return a.fields }
+func (a *verifAssets) Groups() *flows.GroupAssets            { return a.groups }
+func (a *verifAssets) Globals() *flows.GlobalAssets          { return a.globals }
+func (a *verifAssets) Locations() *flows.LocationAssets      { return a.locations }
+func (a *verifAssets) ResolveField(key string) assets.Field  { return nil }
 func (a *verifAssets) ResolveGroup(name string) assets.Group { return nil }
 func (a *verifAssets) ResolveFlow(name string) assets.Flow   { return nil }
 func (a *verifAssets) Source() assets.Source                 { return nil }
@@ -139,13 +139,13 @@ const (
 )
 
 type verifNodeSpec struct {
-	kind    int
-	dests   [3]int // per exit: -1 = none, else node index in the same flow
-	enter   int    // flow index entered
-	hasDef  bool   // switch router has a default category
-	nexits  int
-	lazy    bool // exits choose their destination on first use
-	nnodes  int  // number of nodes of the flow (range of lazy destinations)
+	kind   int
+	dests  [3]int // per exit: -1 = none, else node index in the same flow
+	enter  int    // flow index entered
+	hasDef bool   // switch router has a default category
+	nexits int
+	lazy   bool // exits choose their destination on first use
+	nnodes int  // number of nodes of the flow (range of lazy destinations)
 }
 
 // verifLazyExit is a flows.Exit whose destination is an arbitrary node of its
